@@ -216,6 +216,20 @@ theorem id_minted_only_on_creating_post {cfg : Cfg} {s s' : State} {l : Label} {
         · cases h
       · cases h
     case handlerDone => split at h <;> cases h
+    case postHead sid u =>
+      cases sid <;> simp only [] at h
+      · cases h
+      · split at h
+        · cases h
+        · split at h <;> cases h
+    case postBody j k =>
+      split at h
+      · cases h
+      split at h
+      · cases h
+      · split at h
+        · cases h
+        · simp only [postResp] at h; split at h <;> cases h
     case postEnd sid c => cases sid <;> simp only [] at h <;> (try split at h) <;> cases h
     case get sid u =>
       cases sid <;> simp only [] at h
@@ -847,5 +861,154 @@ theorem stateless_no_ids_405 {cfg : Cfg} {s : State} (hr : Reach cfg s) (hfix : 
 
 example : Reach ⟨true, 100, true, false⟩ (exec (init ⟨true, 100, true, false⟩) [.postBegin (some 7) none .init, .get (some 7) none]) :=
   ⟨_, rfl⟩
+
+
+/-! ## 7. POSTs whose body arrives in pieces; what a closed session leaves behind (C05 ∩ C11) -/
+
+/-- **A POST is in progress from the arrival of its request headers.**  When the headers of a POST with a
+session id have passed `lookupSession` (label `postHead`, answered by the transport's `forward`: it now reads
+the body), the session's count of POSTs in progress is positive and its idle timer is not armed — in that
+state, and it cannot be armed again before an `endPOST`: by `timer_never_fires_during_post` no reachable
+state has a POST in progress and an armed timer.  The body arrives in a later label (`postBody`). -/
+theorem post_in_progress_from_headers {cfg : Cfg} {s s' : State} {i : Nat} {u : User} {d : Bool}
+    (hr : Reach cfg s) (hfix : cfg.publishChecks = true)
+    (h : step s (.postHead (some i) u) = some (s', .forward none d)) :
+    ∃ e ∈ s.tbl, ∃ e' ∈ s'.tbl, lookup s.tbl i u = .ok e ∧ e'.id = i ∧ e'.posts = e.posts + 1 ∧ e'.upl = e.upl + 1 ∧
+      e'.timer.isArmed = false ∧ e'.busy = e.busy ∧ e'.initBusy = e.initBusy ∧ d = !e.closing := by
+  have hr' : Reach cfg s' := reach_step hr h
+  have hi := reach_inv hr hfix
+  unfold step at h
+  split at h
+  · simp [stepStateless] at h
+  · simp only [stepStateful] at h
+    split at h
+    · cases h
+    · rename_i e hl
+      split at h
+      · cases h
+      · rename_i t hm
+        simp only [Option.some.injEq, Prod.mk.injEq, Resp.forward.injEq, true_and] at h
+        obtain ⟨hs', hd⟩ := h
+        subst hs'
+        obtain ⟨pre, e1, post, e1', p1, p2, _, p4, p5, p6⟩ := modify_some hm
+        have hlk := lookup_ok hl
+        rw [hlk.1] at p6; cases p6
+        cases p5
+        have hf := headF_fields e
+        have hmem' : headF e ∈ ({ s with tbl := t } : State).tbl := by show headF e ∈ t; rw [p2]; simp
+        refine ⟨e, (findSess_some hlk.1).1, headF e, hmem', hl, by rw [hf.2.1]; exact p4, hf.2.2.2.2.1, hf.2.2.2.2.2.2.2.2.2, ?_,
+          hf.2.2.2.2.2.2.2.1, hf.2.2.2.2.2.2.2.2.1, hd.symm⟩
+        exact (timer_never_fires_during_post hr' hfix).1 _ hmem' (by rw [hf.2.2.2.2.1]; omega)
+
+/-- The arrival of the body hands the message over and changes nothing else: the POST stays in progress (it
+ends with `postEnd`), the timer and `refs` are untouched; nothing is delivered to a session whose `Close`
+has begun — in particular to one that is closed and gone. -/
+theorem body_arrival_only_delivers {s s' : State} {i : Nat} {k : Kind} {r : Resp}
+    (h : step s (.postBody i k) = some (s', r)) :
+    ∃ e ∈ s.tbl, ∃ e' ∈ s'.tbl, e.id = i ∧ e'.id = i ∧ e'.posts = e.posts ∧ e'.timer = e.timer ∧ e'.refs = e.refs ∧
+      e'.removed = e.removed ∧ e'.inMap = e.inMap ∧ e.upl ≠ 0 ∧
+      (e.closing = true → e'.busy = e.busy ∧ e'.initBusy = e.initBusy) := by
+  unfold step at h
+  split at h
+  · simp [stepStateless] at h
+  · simp only [stepStateful] at h
+    split at h
+    · cases h
+    split at h
+    · cases h
+    · split at h
+      · cases h
+      · rename_i t hm
+        cases h
+        obtain ⟨pre, e1, post, e1', p1, p2, _, p4, p5, p6⟩ := modify_some hm
+        have hf := bodyF_fields p5
+        exact ⟨e1, (findSess_some p6).1, e1', by show e1' ∈ t; rw [p2]; simp, p4, by rw [hf.2.1]; exact p4, hf.2.2.2.2.1,
+          hf.2.2.2.2.2.2.1, hf.2.2.2.2.2.2.2.1, hf.1, hf.2.2.2.2.2.1, hf.2.2.2.2.2.2.2.2.1, hf.2.2.2.2.2.2.2.2.2⟩
+
+/-- **closed_session_timer_never_rearmed** (C05 "shutdown leaves no timer behind", C11 "closed and forgotten").
+Once a session has been closed (`removed`: the connection is closed, the session is disconnected from the server,
+`onClose` has run — by DELETE, idle timeout, server-side close or failed initialize, with or without an error of
+the event store), then after EVERY continuation — in particular the POSTs that were still in progress when it
+was closed (their bodies arriving, `postBody`; their ending, `postEnd`), new requests with its id, clock ticks,
+repeated closes, any fault script — the session is still closed, it is neither a key of `h.sessions` nor listed by
+the server, its idle timer is `nil` (stopped for good, hence not armed), and the timer callback is not enabled. -/
+theorem closed_session_timer_never_rearmed {cfg : Cfg} {s : State} (hr : Reach cfg s)
+    (hfix : cfg.publishChecks = true) {e : Sess} (he : e ∈ s.tbl) (hrem : e.removed = true) (ls : List Label) :
+    ∃ e' ∈ (exec s ls).tbl, e'.id = e.id ∧ e'.removed = true ∧ e'.inMap = false ∧ e'.timer = .nil ∧
+      e'.timer.isArmed = false ∧ e.id ∉ liveIds (exec s ls) ∧ e.id ∉ serverIds (exec s ls) ∧
+      step (exec s ls) (.timerFire e.id) = none := by
+  obtain ⟨e', h1, h2, _, h4, _⟩ := exec_keeps s ls e he
+  have hr' := reach_exec hr ls
+  have hi := reach_inv hr' hfix
+  have hg := hi.good e' h1
+  have hrm := h4 hrem
+  have hmap := (hg.removed hrm).1
+  have htm := (hg.unpublished hmap).1
+  have hd := dead_after_removal hr' hfix h1 hrm []
+  simp only [exec] at hd
+  refine ⟨e', h1, h2, hrm, hmap, htm, by rw [htm]; rfl, by rw [← h2]; exact hd.2.1, by rw [← h2]; exact hd.2.2.1, ?_⟩
+  cases hst : step (exec s ls) (.timerFire e.id) with
+  | none => rfl
+  | some p =>
+    exfalso
+    obtain ⟨s', r⟩ := p
+    obtain ⟨x, hx, hxid, _, hxr, _⟩ := (timer_never_fires_during_post hr' hfix).2 e.id s' r hst
+    have := entry_unique hi hx h1 (hxid.trans h2.symm)
+    rw [this, hrm] at hxr; cases hxr
+
+/-- Non-vacuity, and the scenario of the seeded change C05-m11: a POST whose headers have arrived is in progress
+while its session is deleted (no handler is running: the close completes at once); the body arrives and the POST
+ends on the closed session — the timer stays `nil`, nothing is delivered, every label stays harmless. -/
+example :
+    let s := exec (init ⟨false, 100, true, false⟩) [.postBegin none (some 1) .init, .publish 0, .handlerDone 0 true,
+        .postEnd (some 0) true, .postHead (some 0) (some 1), .delete (some 0) (some 1), .closeDone 0]
+    (s.tbl.map fun e => (e.removed, e.timer, e.posts, e.upl, e.refs)) = [(true, Timer.nil, 1, 1, 1)] ∧
+    ((exec s [.postBody 0 .call, .postEnd (some 0) false, .tick 1000]).tbl.map
+      fun e => (e.removed, e.timer, e.posts, e.upl, e.busy)) = [(true, Timer.nil, 0, 0, 0)] ∧
+    (step s (.postBody 0 .call)).map (·.2) = some (.forward none false) := by decide
+
+/-- **The sentinel is needed** (what C05-m11 removes): `endPOST` *without* the "timer == nil: stopped for good"
+test — `refs` is decremented and the timer re-armed whenever it reaches 0, as for a live session — arms the idle
+timer of a closed session when a POST that outlived the close ends. -/
+def endPostNoSentinel (now timeout : Nat) (e : Sess) : Sess :=
+  if timeout = 0 then { e with posts := e.posts - 1 }
+  else if e.refs - 1 = 0 then { e with posts := e.posts - 1, refs := e.refs - 1, timer := .armed (now + timeout), idleSince := now }
+  else { e with posts := e.posts - 1, refs := e.refs - 1 }
+
+theorem timer_rearmed_without_sentinel :
+    ∃ s e, Reach ⟨false, 100, true, false⟩ s ∧ e ∈ s.tbl ∧ e.removed = true ∧ e.timer = .nil ∧
+      (endPostNoSentinel s.now s.cfg.timeout e).timer.isArmed = true :=
+  ⟨_, _, ⟨[.postBegin none (some 1) .init, .publish 0, .handlerDone 0 true, .postEnd (some 0) true,
+      .postHead (some 0) (some 1), .delete (some 0) (some 1), .closeDone 0, .postBody 0 .call], rfl⟩,
+    List.mem_singleton.mpr rfl, rfl, rfl, rfl⟩
+
+/-- **Closing is total, whatever the store answers, also with POSTs in progress** (C05 "Close … returns and the
+session is removed", the clause C05-m12 breaks).  A session whose close has begun and that has no handler in
+flight — whatever its number of POSTs in progress (bodies still on their way) and whatever set `f` of event-store
+methods fails at that moment, `SessionClosed` included — completes its close in one label: the connection is
+done, the session is disconnected from the server and `onClose` has run (`removed`), it is out of `h.sessions`,
+its timer is stopped for good; the store's error is only reported.  Until that label is taken it stays enabled
+(`close_stays_enabled`), and afterwards nothing re-arms or re-lists the session (`closed_session_timer_never_rearmed`). -/
+theorem close_total_with_posts_in_progress {cfg : Cfg} {s : State} (hr : Reach cfg s) (hfix : cfg.publishChecks = true)
+    {e : Sess} (he : e ∈ s.tbl) (hc : e.closing = true) (hrem : e.removed = false)
+    (hb : e.busy = 0) (hib : e.initBusy = 0) (f : Faults) (ls : List Label) :
+    ∃ s₁ s₂, step s (.faults f) = some (s₁, .tau) ∧ step s₁ (.closeDone e.id) = some (s₂, .tau) ∧
+      ∃ e' ∈ (exec s₂ ls).tbl, e'.id = e.id ∧ e'.removed = true ∧ e'.inMap = false ∧ e'.timer = .nil ∧
+        e.id ∉ liveIds (exec s₂ ls) ∧ e.id ∉ serverIds (exec s₂ ls) := by
+  obtain ⟨s₁, s₂, h1, h2, ⟨e2, he2, hid, _, hrm, _, _, _⟩, _⟩ := close_total hr hfix he hc hrem hb hib f
+  have hr2 : Reach cfg s₂ := reach_step (reach_step hr h1) h2
+  obtain ⟨e', h', a, b, c, d, _, g, k, _⟩ := closed_session_timer_never_rearmed hr2 hfix he2 hrm ls
+  exact ⟨s₁, s₂, h1, h2, e', h', a.trans hid, b, c, d, by rw [← hid]; exact g, by rw [← hid]; exact k⟩
+
+/-- **A close that bails out on the store's error never completes** (what C05-m12 does): if closing the connection
+returned the error of `SessionClosed` *without* marking the connection done, the completion of the close would not
+be enabled while the store fails — the session stays listed by the server and in the handler's table. -/
+def closeDoneBailF (err : Bool) (e : Sess) : Option Sess := if err then none else closeDoneF false e
+
+theorem close_that_bails_never_completes (e : Sess) : closeDoneBailF true e = none := rfl
+
+example : ∀ e : Sess, e.closing = true → e.removed = false → e.busy = 0 → e.initBusy = 0 →
+    (closeDoneF true e).isSome = true ∧ closeDoneBailF true e = none := by
+  intro e h1 h2 h3 h4; simp [closeDoneF, closeDoneBailF, h1, h2, h3, h4]
 
 end Sessions
